@@ -393,7 +393,7 @@ def attribute(g, atoms):
     else:
         r = yield g
         if r is None:
-            return [f"{g['sk']}->{g['tk']}:via:{chain_text(g['chain'])}:not-reproducible-alone"]
+            return []          # the isolated run died (reported as analysis-died) or showed no dynamic flow (counted)
         if r:
             return [f"{g['sk']}->{g['tk']}:lost-only-among-other-flows"]
     guard = 0
@@ -431,7 +431,7 @@ def run_attribution(missed_gadgets, level_of, timeout, cap_runs):
     """missed_gadgets: {id: gadget}.  Gadgets are attributed in waves of increasing chain length (short chains name the
     mechanisms cheaply, long chains then only need 'is it reported once the known-bad carriers are dropped?'); inside a
     wave all attribute() generators advance in lock-step with batched real runs."""
-    cache, cases = {}, {}
+    cache, died = {}, {}
     done = {}
     atoms = []
     runs = 0
@@ -481,7 +481,10 @@ def run_attribution(missed_gadgets, level_of, timeout, cap_runs):
                             cache[k] = None
                             continue
                         v = r.value
-                        if not v["expected"] or not v["status"].startswith("ok"):
+                        if not v["status"].startswith("ok"):
+                            cache[k] = None
+                            died[v["status"]] = v["case"]
+                        elif not v["expected"]:
                             cache[k] = None
                         else:
                             cache[k] = not v["missed"]
@@ -493,7 +496,7 @@ def run_attribution(missed_gadgets, level_of, timeout, cap_runs):
                     except StopIteration as e:
                         done[mid] = e.value
                 pending = nxt
-    return done, runs, [a.sig for a in atoms]
+    return done, runs, [a.sig for a in atoms], died
 
 
 # ---------------------------------------------------------------------------------------------------
@@ -609,7 +612,9 @@ def main():
     # attribution
     if missed:
         cap = 1500 if not thorough else 12000
-        done, runs, atom_sigs = run_attribution(missed, level_of, timeout, cap)
+        done, runs, atom_sigs, died = run_attribution(missed, level_of, timeout, cap)
+        for status, case in sorted(died.items()):
+            chk.fail("analysis-died:" + status, f"lian run on an isolated gadget ended with {status}", {"program": case, "level": "extended"})
         chk.extra["mechanisms named in this run"] = atom_sigs
         chk.count("missed flows", len(missed))
         if any(v is None for v in done.values()):
@@ -621,11 +626,16 @@ def main():
             if sigs is None:
                 chk.count("missed flows left unattributed (run cap)", 1)
                 continue
+            if not sigs:
+                chk.count("missed flows whose isolated re-run gave no verdict", 1)
             for sig in sigs:
                 chk.fail(sig, f"flow {info['pair'][0]}:{info['pair'][1]} -> {info['pair'][2]}:{info['pair'][3]} observed in CPython "
                               f"({g['sk']} source, {g['tk']} sink, carriers {chain_text(norm_gadget(g)['chain'])}, place {g['place']}, "
                               f"{len(info['program']['files'])} file(s)) is not among the reported flows",
                          {"program": info["program"], "level": info["level"], "pair": info["pair"], "gadget": g})
+    if chk.counters.get("missed flows whose isolated re-run gave no verdict", 0) and not any(
+            sig.startswith("analysis-died") for sig, _, _ in chk.violations):
+        chk.note_inconclusive("some missed flows could not be attributed: their isolated re-run showed no dynamic flow (harness fault)")
     chk.extra["coverage_table (source kind, sink kind, carrier) -> [dynamic flows, found by lian]"] = {
         f"{a}->{b} via {c}": v for (a, b, c), v in sorted(table.items())}
     chk.extra["rule_sets"] = {"extended": "rules for every base/ext name used + restricted rules + rules matching nothing",
